@@ -17,7 +17,7 @@ CONSTANTS AtomIds,    \* subset of DOMAIN AtomTable
 AtomTable == <<Tag("a", 0), Tag("b", 0), Tag("ab", 1), Re("a", 0), Re("b$", 2),      \* 1-5
                Tag("ab", 0), Tag("a", 2), Tag("b", 1), Re("^a", 1), Re("b", 0),      \* 6-10
                Re("b|a$", 0), Re("a,b", 0), Re("a&b", 0), Re("^(a|b)$", 0),          \* 11-14: bare regexes that
-               Re("b|a$", 1)>>                                                       \* swallow operator characters; 15
+               Re("b|a$", 1), Re("b.a", 0)>>                                                       \* swallow operator characters; 15-16
 A0 == {AtomTable[i] : i \in AtomIds}
 Grow(S) == S \cup {Not(y) : y \in S} \cup {Par(y) : y \in S}
              \cup {And(y, z) : y \in S, z \in S} \cup {Or("|", y, z) : y \in S, z \in S}
